@@ -345,7 +345,7 @@ func TestC01(t *testing.T) {
 	}
 	Explore("TestC01", rep, runs)
 	if b, _ := rep.Extra["bans"].(int64); b == 0 {
-		core.HarnessError("vacuous: no execution reached a hash failure / ban")
+		rep.Vacuous("vacuous: no execution reached a hash failure / ban")
 	}
 	rep.Finish()
 }
